@@ -9,7 +9,8 @@ def noise_item(rng, kinds):
   if k == 'ws':
     return rng.choice(NOISE_WS), 'ws'
   if k == 'hash':
-    return ' #' + rng.choice(COMMENT_BODIES).replace('\n', ' ') + '\n', 'hash'
+    # the comment may be glued to the token before it; the newline that ends it is then the only separator
+    return rng.choice([' #', ' #', '#']) + rng.choice(COMMENT_BODIES).replace('\n', ' ') + '\n', 'hash'
   return ' /*' + rng.choice(COMMENT_BODIES).replace('*/', '* /') + '*/ ', 'block'
 
 
@@ -31,7 +32,8 @@ def variant(toks, rng, density=0.3, kinds=('ws', 'ws', 'hash', 'block'), at=('',
     if x in at and rng.random() < density:
       n, kind = noise_item(rng, kinds)
       # a '#' comment must not swallow the following token: it always ends with a newline
-      base = base + n if rng.random() < 0.5 else n + base
+      y = rng.random()
+      base = base + n if y < 0.4 else (n + base if y < 0.8 else n)
       log.append((i, kind, toks[i - 1], toks[i + 1] if i + 1 < len(toks) else ''))
     out.append(base)
   text = ''.join(out)
@@ -98,7 +100,8 @@ def plan_variant(toks, rng, density=0.3, kinds=('ws', 'ws', 'hash', 'block'), at
       continue
     if x in at and rng.random() < density:
       n, kind = noise_item(rng, kinds)
-      items.append((i, base + n if rng.random() < 0.5 else n + base, kind, toks[i - 1], right))
+      y = rng.random()
+      items.append((i, base + n if y < 0.4 else (n + base if y < 0.8 else n), kind, toks[i - 1], right))
   return items
 
 
